@@ -591,3 +591,127 @@ func schemaTainted(f *FuncInfo, a *Arm, e ast.Expr, valueParam types.Object, dep
 	})
 	return tainted
 }
+
+// ruleEnumGen: R-ENUM-GEN (C17, generator side).
+func ruleEnumGen(c *Ctx, r *Report) {
+	r.Rule("R-ENUM-GEN", "gogen.genGoEnumeratedTypes records the Go constant name and the YANG name of each enum value under the same Go value, that value is never 0 (reserved for UNSET), UNSET is the only name at 0 and has no YANG name; the enum templates expand to one constant per code value and one ΛEnum entry per YANG value with matching numbers", 5)
+	f := c.MustFunc(r, "gogen", "genGoEnumeratedTypes")
+	if f != nil {
+		info := f.Info()
+		var codeStore, yangStore *ast.AssignStmt
+		ast.Inspect(f.Decl.Body, func(n ast.Node) bool {
+			as, ok := n.(*ast.AssignStmt)
+			if !ok || len(as.Lhs) != 1 {
+				return true
+			}
+			ix, ok := as.Lhs[0].(*ast.IndexExpr)
+			if !ok {
+				return true
+			}
+			mt, ok := info.Types[ix.X].Type.Underlying().(*types.Map)
+			if !ok || mt.Key().String() != "int64" {
+				return true
+			}
+			if mt.Elem().String() == "string" {
+				codeStore = as
+			} else {
+				yangStore = as
+			}
+			return true
+		})
+		if codeStore == nil || yangStore == nil {
+			r.Und("gogen.genGoEnumeratedTypes:stores", c.Pos(f.Decl.Pos()), "stores of code names / YANG names not found")
+		} else {
+			k1, k2 := codeStore.Lhs[0].(*ast.IndexExpr).Index, yangStore.Lhs[0].(*ast.IndexExpr).Index
+			same := sameExpr(info, k1, k2) && enclosingBlock(c, f, codeStore) == enclosingBlock(c, f, yangStore)
+			r.Check(same, "gogen.genGoEnumeratedTypes:same-value", c.Pos(codeStore.Pos()), "code name and YANG name stored under the same Go value "+types.ExprString(k1), "the Go constant and the ΛEnum entry of a YANG enum value are recorded under different numbers: rendering a value gives another value's name")
+			// never zero: a dominating guard excluding 0 (key != 0, or value != -1 for value+1).
+			guarded := false
+			for _, ft := range c.FactsAt(f, codeStore, false) {
+				if ft.Kind != "cond" {
+					continue
+				}
+				s := strings.ReplaceAll(types.ExprString(ft.Cond), " ", "")
+				if (strings.Contains(s, "!=0") && ft.Pos) || (strings.Contains(s, "==0") && !ft.Pos) || (strings.Contains(s, "!=-1") && ft.Pos) || (strings.Contains(s, "==-1") && !ft.Pos) || (strings.Contains(s, "<0") && !ft.Pos) {
+					guarded = true
+				}
+			}
+			r.Check(guarded, "gogen.genGoEnumeratedTypes:value-never-zero", c.Pos(codeStore.Pos()), "the Go value of a defined enum value is proved non-zero", "genGoEnumeratedTypes stores a defined YANG enum value under "+types.ExprString(k1)+" without excluding 0: a YANG enum with `value -1` gets the Go value 0, replaces UNSET, and is then treated as unset (never rendered, Validate cannot see it)")
+		}
+		// literals.
+		unsetOnly, origEmpty := false, false
+		ast.Inspect(f.Decl.Body, func(n ast.Node) bool {
+			cl, ok := n.(*ast.CompositeLit)
+			if !ok {
+				return true
+			}
+			mt, ok := info.Types[cl].Type.Underlying().(*types.Map)
+			if !ok || mt.Key().String() != "int64" {
+				return true
+			}
+			if mt.Elem().String() == "string" {
+				if len(cl.Elts) == 1 {
+					if kv, ok := cl.Elts[0].(*ast.KeyValueExpr); ok {
+						k, _ := ConstOf(info, kv.Key)
+						v, _ := ConstOf(info, kv.Value)
+						unsetOnly = k == "0" && v == `"UNSET"`
+					}
+				}
+			} else if len(cl.Elts) == 0 {
+				origEmpty = true
+			}
+			return true
+		})
+		r.Check(unsetOnly && origEmpty, "gogen.genGoEnumeratedTypes:unset", c.Pos(f.Decl.Pos()), "code values start as {0: UNSET}; YANG values start empty (0 has no YANG name)", "the initial value tables of genGoEnumeratedTypes no longer reserve 0 for UNSET only")
+	}
+	// template expansion.
+	ts := c.templatesOf("gogen")
+	if ts["enumDefinition"] == nil || ts["enumMap"] == nil {
+		r.Und("template:enumDefinition", "-", "enum templates not found")
+		return
+	}
+	src := "package en\n\nimport \"github.com/openconfig/ygot/ygot\"\n\n"
+	s1, err1 := instantiate(ts["enumDefinition"], map[string]any{"EnumerationPrefix": "Color", "Values": map[int64]string{0: "UNSET", 1: "RED", 2: "BLUE", 7: "GREEN"}})
+	s2, err2 := instantiate(ts["enumMap"], map[string]map[int64]map[string]any{"Color": {1: {"Name": "RED", "DefiningModule": ""}, 2: {"Name": "BLUE", "DefiningModule": "m"}, 7: {"Name": "GREEN", "DefiningModule": ""}}})
+	if err1 != nil || err2 != nil {
+		r.Und("enum[template]:expand", c.Pos(ts["enumDefinition"].Pos), fmt.Sprintf("template expansion failed: %v %v", err1, err2))
+		return
+	}
+	sp, err := c.buildSynth("en", src+s1+s2)
+	pos := c.Pos(ts["enumDefinition"].Pos)
+	if err != nil {
+		r.Bad("enum[template]:compiles", pos, "the enum code generated for the analyser's shape does not compile: "+err.Error())
+		return
+	}
+	want := map[string]string{"Color_UNSET": "0", "Color_RED": "1", "Color_BLUE": "2", "Color_GREEN": "7"}
+	okc := true
+	for name, v := range want {
+		cn, _ := sp.Pkg.Types.Scope().Lookup(name).(*types.Const)
+		if cn == nil || cn.Val().ExactString() != v || typeShort(cn.Type()) != "en.E_Color" {
+			okc = false
+		}
+	}
+	r.Check(okc, "enum[template]:constants", pos, "one typed constant per code value, numbered by the value table's key", "the enum template does not declare one E_<name> constant per code value with the table's number")
+	// ΛEnum literal.
+	entries := map[string]string{}
+	ast.Inspect(sp.File, func(n ast.Node) bool {
+		kv, ok := n.(*ast.KeyValueExpr)
+		if !ok {
+			return true
+		}
+		if inner, ok := kv.Value.(*ast.CompositeLit); ok {
+			for _, el := range inner.Elts {
+				if kv2, ok := el.(*ast.KeyValueExpr); ok {
+					if id, ok := kv2.Key.(*ast.Ident); ok && id.Name == "Name" {
+						k, _ := ConstOf(sp.Pkg.TypesInfo, kv.Key)
+						v, _ := ConstOf(sp.Pkg.TypesInfo, kv2.Value)
+						entries[k] = v
+					}
+				}
+			}
+		}
+		return true
+	})
+	okm := len(entries) == 3 && entries["1"] == `"RED"` && entries["2"] == `"BLUE"` && entries["7"] == `"GREEN"`
+	r.Check(okm, "enum[template]:name-map", c.Pos(ts["enumMap"].Pos), "ΛEnum has one entry per YANG value under the same number as its constant, none for 0", "the enum map template does not give each YANG value one entry under its constant's number")
+}
